@@ -1,6 +1,6 @@
 (* G12.Lift — the generic lemmas restated for the shapes Tables.v reports, with
    the facts about the source as hypotheses (discharged in Obligations.v). *)
-From Coq Require Import List Bool Arith ZArith.
+From Coq Require Import List Bool Arith NArith ZArith Lia.
 From FwdLib Require Import Bytes.
 From G12 Require Import Tables Errors Exchange Conntrack Check ExchangeProofs ConntrackProofs PromProofs.
 Import ListNotations.
@@ -47,4 +47,20 @@ Proof.
   intro H. apply active_zero. intros k Hk.
   induction H as [|c k' cs fs [C R] _ IH]; [contradiction|].
   destruct Hk as [<-|Hk]; [exact (conn_run_one _ _ _ _ C R) | exact (IH Hk)].
+Qed.
+
+(* the byte model evaluated on the implementation's calls (Check.byte_model) is the wrapper model of Conntrack.v *)
+Definition bop_of (o : N * N) : bop :=
+  if N.eqb (fst o) 0 then BRead (snd o) else if N.eqb (fst o) 1 then BWrite (snd o) else BReadFrom (snd o).
+Lemma byte_model_is_brun ops : byte_model ops = brun (map bop_of ops).
+Proof.
+  rewrite byte_counters_are_sums. induction ops as [|[k n] r IH]; [reflexivity|].
+  change (byte_model ((k, n) :: r)) with
+    (if N.eqb k 0 then (fst (byte_model r) + n, snd (byte_model r))%N else (fst (byte_model r), snd (byte_model r) + n)%N).
+  rewrite IH. cbn [fst snd map].
+  assert (B : bop_of (k, n) = if N.eqb k 0 then BRead n else if N.eqb k 1 then BWrite n else BReadFrom n) by reflexivity.
+  rewrite B. generalize (map bop_of r). intro l.
+  destruct (N.eqb k 0).
+  - unfold rx_sum, tx_sum. cbn [fold_right]. f_equal. lia.
+  - destruct (N.eqb k 1); unfold rx_sum, tx_sum; cbn [fold_right]; f_equal; lia.
 Qed.
